@@ -138,6 +138,11 @@ func (n *simNode) SendToPeer(peerID identity.AgentID, frame *protocol.Frame) err
 		n.net.sendErr(n.Idx, to, frame, err)
 		return err
 	}
+	if n.net.FailLink[[2]int{n.Idx, to}] {
+		err := fmt.Errorf("write to %s: broken pipe", peerID.ShortString())
+		n.net.sendErr(n.Idx, to, frame, err)
+		return err
+	}
 	wire, err := frame.Encode()
 	if err != nil {
 		n.net.sendErr(n.Idx, to, frame, err)
@@ -154,7 +159,11 @@ func (n *simNode) SendToPeer(peerID identity.AgentID, frame *protocol.Frame) err
 // to the flooder, we use ascending node index).
 func (n *simNode) GetPeerIDs() []identity.AgentID {
 	var ids []identity.AgentID
-	for j := 0; j < n.net.N; j++ {
+	for jj := 0; jj < n.net.N; jj++ {
+		j := jj
+		if len(n.net.PeerPerm) == n.net.N {
+			j = n.net.PeerPerm[jj]
+		}
 		if n.net.up[n.Idx][j] {
 			ids = append(ids, n.net.Nodes[j].ID)
 		}
@@ -194,6 +203,13 @@ type simNet struct {
 	// calls. A scenario may let another event (e.g. a peer joining) happen exactly there, as a
 	// concurrent goroutine of the real agent could.
 	Inject func(node int, point string)
+
+	// PeerPerm (optional): the order in which GetPeerIDs lists peers (a permutation of the node
+	// indices; peer.Manager lists its map keys in no particular order).
+	PeerPerm []int
+	// FailLink (optional): directed links on which SendToPeer returns an error although the
+	// peer is still listed by GetPeerIDs (a dead connection that has not been reaped yet).
+	FailLink map[[2]int]bool
 
 	cur *simFrame // frame being handled right now (nil outside Deliver)
 }
